@@ -26,7 +26,7 @@ COVERS = {
     "MC_C06_q": ("s1", 2, 1), "MC_C06_q2": ("s1,s2", 1, 1), "MC_C06_t0": ("s1", 2, 1), "MC_C06_t": ("s1,s2", 2, 1),
     "MC_C07_q": ("s1,s2", 2, 1), "MC_C07_q3": ("s1,s2,s3", 1, 1), "MC_C07_t": ("s1,s2", 2, 1), "MC_C07_t3": ("s1,s2,s3", 2, 1),
     "MC_C08_q": ("s1,s2", 2, 1), "MC_C08_t": ("s1,s2", 2, 1),
-    "MC_C09_q": ("s1,s2", 2, 1), "MC_C09_t": ("s1,s2", 2, 1),
+    "MC_C09_q": ("s1,s2", 2, 1), "MC_C09_t": ("s1,s2", 2, 1), "MC_C09_t3": ("s1,s2,s3", 1, 1),
 }
 PLAN = {
     #        quick covers              thorough covers
@@ -34,7 +34,7 @@ PLAN = {
     "C06": (["MC_C06_q", "MC_C06_q2"], ["MC_C06_q", "MC_C06_q2", "MC_C06_t0", "MC_C06_t"]),
     "C07": (["MC_C07_q", "MC_C07_q3"], ["MC_C07_q", "MC_C07_q3", "MC_C07_t", "MC_C07_t3"]),
     "C08": (["MC_C08_q"], ["MC_C08_q", "MC_C08_t"]),
-    "C09": (["MC_C09_q"], ["MC_C09_q", "MC_C09_t"]),
+    "C09": (["MC_C09_q"], ["MC_C09_q", "MC_C09_t", "MC_C09_t3"]),
 }
 QUICK_VARIANTS = "mem,mem-cms-c2-cmsv-liverb"
 THOROUGH_VARIANTS = "mem,mem-cms-c2-cmsv-liverb,ldb@25,ldb-c2-cms-cmsv@25"
